@@ -12,10 +12,10 @@ CHECKS = {
                 text="Every ordered selection of 1..2 (quick) / 1..3 (thorough) of 13 identifier shapes plus two 8-entry lists, 7 key types x 3 digests x 4 kp_reuse situations, every subject attribute alone / none / all through the real flow, and every subset of the 15 attributes (32 768 in thorough) on the real CSR builder. The CA compares newOrder and the CSR (own DER parser, OpenSSL self-signature check) with literal expected canonical forms; the key file is compared with the CSR key after success. Also: a usable pre-existing key of another key type at the key path (the signature algorithm must follow the certified key).",
                 note="Dimensions are explored as a sum, not a product (they reach the CSR builder as independent arguments). Expected canonical forms are literals in vlib/props/c01.py.", ref="4/C01"),
     "C02": dict(engine="E3+E1", level="model_checking", technique="explicit enumeration of all write histories per file type through the real storage functions + issuance histories with varying chain/key lengths",
-                text="All write histories of depth 3 (quick) / 4 (thorough) over four contents of different lengths per file type, from {absent, empty, longer garbage}: after every write, read at the moment the storage function returns, the file equals what was written (accounts: length of a fresh save + load-back equality). 1..3 consecutive issuances with chain lengths {1..4}^k and alternating key types into the same two paths: certificate file = served body, key file = CSR key. Write histories also start from a symbolic link to a longer file and from a dangling link; issuances also run into paths that already hold an existing pair, another client's pair (secp256k1, RSA-3072), a truncated or an empty key file, with kp_reuse off and on.",
+                text="All write histories of depth 3 (quick) / 4 (thorough) over four contents of different lengths per file type, from {absent, empty, longer garbage}: after every write, read at the moment the storage function returns, the file equals what was written (accounts: length of a fresh save + load-back equality). 1..3 consecutive issuances with chain lengths {1..4}^k and alternating key types into the same two paths: certificate file = served body, key file = CSR key. Write histories also start from a symbolic link to a longer file and from a dangling link; issuances also run into paths that already hold an existing pair, another client's pair (secp256k1, RSA-3072), a truncated or an empty key file, with kp_reuse off and on. Write histories also contain writes under a 2048-byte file size limit: a write(2) that cannot complete must be reported.",
                 note="Files are real files in a tmpfs scratch directory; account byte equality is not demanded (HashMap order).", ref="4/C02"),
     "C03": dict(engine="E1", level="model_checking", technique="stateless exhaustive exploration of CA fault answers (deviation-bounded), real daemon loop under a controlled environment",
-                text="Every single CA/network fault (full alphabet per request kind) at every request position of an issuance, with and without an installed pair and kp_reuse; thorough: every pair of faults over a reduced alphabet and every triple over {badNonce, cut}. The file-state oracle is evaluated at every attempt end and after the loop is dropped. Right level: the property quantifies over fault sequences of one short request history, which is finite once the alphabet is fixed. Also: pre-existing pairs whose key file the daemon cannot load (foreign curve, RSA-3072, truncated, empty; kp_reuse on) and two consecutive attempts of one daemon process with a fault in either.",
+                text="Every single CA/network fault (full alphabet per request kind) at every request position of an issuance, with and without an installed pair and kp_reuse; thorough: every pair of faults over a reduced alphabet and every triple over {badNonce, cut}. The file-state oracle is evaluated at every attempt end and after the loop is dropped. Right level: the property quantifies over fault sequences of one short request history, which is finite once the alphabet is fixed. Also: pre-existing pairs whose key file the daemon cannot load (foreign curve, RSA-3072, truncated, empty; kp_reuse on) and two consecutive attempts of one daemon process with a fault in either. Also default runs under three file size limits (an attempt reported successful must have installed a consistent pair).",
                 note="Trusted: the mock CA (probe/ca.rs), OpenSSL for parsing the files, the answer alphabet of vlib/e1.py. Key bytes are not owned.", ref="4/C03"),
     "C04": dict(engine="E1+E4", level="model_checking", technique="exhaustive nonce-answer exploration (bound 2) + key-type/flow grid + signature shape cells, every POST judged by an independent strict JWS verifier",
                 text="Every POST of every explored execution is checked by the CA's own JWS verifier (shape, url, nonce issued/fresh, jwk/kid discipline, alg, signature with fixed-width ECDSA, key-change inner/outer, external binding MAC). Explored: all sequences of <=2 nonce-relevant environment answers over two attempts; 7 key types x flows; 49 roll-overs; ECDSA shape cells witnessed by looping the real sign function. Also a flow with two key-type changes and a restart but no renewal in between (the roll-over must be authorised by the key the CA holds).",
@@ -27,19 +27,19 @@ CHECKS = {
                 text="Every hook list of <=2 (quick) / <=3 (thorough) top-level entries over 8 hooks (type palette incl. multi-typed) and 4 groups (nested, duplicate), allow_failure unset/true, first issuance + renewal, default run plus every single hook invocation exiting 1; colliding environment variables at four levels; stdin_str, stdin file, stdout/stderr templates; all three challenge types; an overlap probe. The recorder log must equal the predicted trace (order, types, variables, environment precedence, create/edit bracketing, clean hooks). Hook failures in the second scenario family also as exit 255 and signal 9; the env template variable must include a variable set only in the daemon's environment.",
                 note="The predictor (vlib/props/c10.py) encodes the flow order stated in the property; account-hook global environment is observed, not judged.", ref="4/C10"),
     "C06": dict(engine="E4", level="exploration", technique="bounded-exhaustive grid over certificates on disk and renewal settings, evaluated by the real schedule_renewal against a six-line reference",
-                text="12 notAfter values (10 years ago .. 9999-12-31) x 6 renew_delay x 5 random_early_renew, 10 SAN relations (subset, superset, permutation, wildcard vs base, IDN, IPv4, IPv6 spelled differently), missing / unparsable files; every case is loaded through MainEventLoop::new and evaluated 64 times; expected 0 s for missing file or identifier, otherwise a delay inside [notAfter - renew_delay - random_early_renew, notAfter - renew_delay] clamped at 0; no panic; a freshly issued certificate is not due. Also renew_delay / random_early_renew of 2^64-1 s, and after every single hook failure or CA fault of a renewal the same process is asked for the renewal date, which must follow the files on disk at that moment.",
+                text="12 notAfter values (10 years ago .. 9999-12-31) x 6 renew_delay x 5 random_early_renew, 10 SAN relations (subset, superset, permutation, wildcard vs base, IDN, IPv4, IPv6 spelled differently), missing / unparsable files; every case is loaded through MainEventLoop::new and evaluated 64 times; expected 0 s for missing file or identifier, otherwise a delay inside [notAfter - renew_delay - random_early_renew, notAfter - renew_delay] clamped at 0; no panic; a freshly issued certificate is not due. Also renew_delay / random_early_renew of 2^64-1 s, and after every single hook failure or CA fault of a renewal the same process is asked for the renewal date, which must follow the files on disk at that moment. Also certificate and/or key reached through symbolic links.",
                 note="OpenSSL's wall clock read is not virtualised (3 s tolerance); the jitter is thread_rng's (interval oracle).", ref="4/C06"),
     "C09": dict(engine="E3+E1", level="model_checking", technique="explicit-state BFS over the reachable states of the real RateLimit under a virtual clock + admission-before-request invariant on explored request logs",
                 text="For every set of 1..2 (quick) / 1..3 (thorough) limits over n in {1,2,3,5,20} x period in {1,2,3,5,10 s}: BFS over arrival-gap histories to depth 6 / 10 or fixpoint, states deduplicated by the ages in the limiter's own query log; window oracle (never n+1 admissions within a period) and progress oracle on every admission sequence. Every request of a bound-1 fault exploration and of account-update / key-change / binding flows must be preceded by an admission, and admission instants of 1..3 certificates contending for one endpoint satisfy the windows.",
                 note="Instants are read at the limiter on the virtual clock, not on the wire.", ref="4/C09"),
     "C11": dict(engine="E3+E4", level="model_checking", technique="explicit-state BFS over histories of configuration edits, restarts, renewals and CA forgetfulness, re-executed on the real daemon and deduplicated by a canonical state key; exhaustive truncation sweep of account files",
-                text="Histories over {renew on A/B(/C), edit contacts, change key type, change both, next external binding, restart, CA forgets the account} to depth 4 (quick, 2 endpoints, 2 key types) / 6 (thorough, 3 endpoints, 3 key types): invariants on every renewal transition (registration only when no URL / CA says unknown / binding changed; after success the CA's record equals the configuration; one update per item; every account request verifies under the key the CA holds; renewals never fail against a conforming CA). 350+ account shapes saved and loaded back; every truncation point (40 000+) of account files must be refused and left untouched. Contacts range over three lists including the empty one. Interrupted synchronisations: issue, edit (contacts/key/both/binding), a renewal in which every request position in turn is refused or cut, optional restart, clean renewal.",
+                text="Histories over {renew on A/B(/C), edit contacts, change key type, change both, next external binding, restart, CA forgets the account} to depth 4 (quick, 2 endpoints, 2 key types) / 6 (thorough, 3 endpoints, 3 key types): invariants on every renewal transition (registration only when no URL / CA says unknown / binding changed; after success the CA's record equals the configuration; one update per item; every account request verifies under the key the CA holds; renewals never fail against a conforming CA). 350+ account shapes saved and loaded back; every truncation point (40 000+) of account files must be refused and left untouched. Contacts range over three lists including the empty one. Interrupted synchronisations: issue, edit (contacts/key/both/binding), a renewal in which every request position in turn is refused or cut, optional restart, clean renewal. Local failures: registration / contact update / roll-over / both with every hook invocation of the renewal failing in turn and a second attempt of the same process (the daemon must not forget what the CA accepted).",
                 note="State merging argument in DESIGN.md 4/C11; the CA's record per phase is reconstructed from the common event log.", ref="4/C11"),
     "C12": dict(engine="E2", level="model_checking", technique="controlled scheduling of the real request_certificate futures: exhaustive deviation-bounded enumeration of interleavings at lock acquisitions and held CA responses, with a writer-preferring lock model",
                 text="2..3 certificates sharing accounts and endpoints in 9 scenarios (quick) + every sharing pattern of 3 certificates over 2 accounts x 2 endpoints (thorough); all schedules with <= 2 (quick) / <= 3 (thorough) departures from run-to-completion for two tasks, <= 1 / <= 2 for three. Oracles: no deadlock (no enabled task while one is unfinished), every task finishes and succeeds, newAccount per key and endpoint <= 1 + accountDoesNotExist answers, no nonce consumed twice (CA ledger), all JWS checks. Thorough: the three-certificate scenario is searched to its fixpoint (61 643 executions); the twenty three-certificate sharing patterns are cut at 6 000 executions of the stateful search each (reported under caps_hit).",
                 note="The lock wrapper uses async-lock's try_read/try_write and guards; waiting and writer preference (an announced writer blocks new readers) are modelled by the scheduler, which explores every acquisition order.", ref="4/C12"),
     "C13": dict(engine="E4", level="exploration", technique="exhaustive enumeration of all 4096 mode values x 3 umasks on the real storage functions + mode/owner grid through generated configurations and full issuances",
-                text="All 4096 values of cert_file_mode (with a derived distinct pk_file_mode) x umask {000,022,077} x {certificate, key, account} through the real write path, stat() after creation; through TOML: option unset / each of 12 bits / 6 common values for both options, owner and group unset / by name / by number for certificate and key files, creation and rewrite under a changed configuration. Also rewrites under umasks 077 and 027 (unchanged and changed configuration) and names that are both a user and a group with different numbers.",
+                text="All 4096 values of cert_file_mode (with a derived distinct pk_file_mode) x umask {000,022,077} x {certificate, key, account} through the real write path, stat() after creation; through TOML: option unset / each of 12 bits / 6 common values for both options, owner and group unset / by name / by number for certificate and key files, creation and rewrite under a changed configuration. Also rewrites under umasks 077 and 027 (unchanged and changed configuration) and names that are both a user and a group with different numbers. Also rewrites during which a file-pre-edit backup hook moves the old file away.",
                 note="Only the nine permission bits are judged (the kernel drops set-id/sticky on open/write). Ownership needs root (true in this sandbox; reported as unchecked otherwise).", ref="4/C13"),
     "C14": dict(engine="E4", level="exploration", technique="exhaustive enumeration of presence patterns, of all 512 include graphs on three files and of global-option splits, against an independent resolver over the generating dictionaries",
                 text="2^3 presence patterns per setting with distinct values; every directed include graph on 3 files with relative/absolute/glob/./ paths and duplicates; each of the 15 global options in 6 file-split patterns; 12 reference cases (dangling endpoint/account/hook/group member/rate limit, duplicate ids) with controls. Effective values are read back from the loaded MainEventLoop. Also 12 spelling cases (.., symlinks, relative main path, cycles and globs back to the main file) and eight certificates on one endpoint with every subset of three certificate-level options in four declaration orders.",
@@ -51,25 +51,25 @@ CHECKS = {
                 text="10 domains (1..5 labels, mixed case, IDN, upper-case IDN, A-label, IPv4/IPv6 reverse names) x 7 digests, 7 key types x 3 digest algorithms, {TCP, unix socket} x value source {flag, file, stdin}, 8 client ALPN lists, proofs rendered by the daemon's own get_proof: handshake succeeds with acme-tls/1 negotiated, certificate self-signed, currently valid, SAN = exactly the A-label, critical acmeIdentifier = the digest, key of the requested type; clients offering only foreign protocols are refused. Also domains with a capital sigma at a label boundary.",
                 note="Clients without ALPN are observed, not judged. Trusted: Python's ssl module as the client, OpenSSL for the self-signature.", ref="4/C16"),
     "C17": dict(engine="E5", level="model_checking", technique="exhaustive enumeration of connection-behaviour histories against a fresh release tacd process each, followed by a probing handshake",
-                text="Every ordered selection (with repetition) of 0..2 (quick: 57) / 0..4 (thorough: 2801) behaviours from {connect+close, garbage, plain HTTP, TLS without ALPN, TLS with foreign ALPN, ClientHello then silence, 50 stalled connections} on TCP, depth <= 1 on the unix socket, each followed by a valid acme-tls/1 handshake judged with C16's certificate oracle; the process must never exit or be signalled. Also a ninth behaviour (20 connections aborted with a RST) and slow peers: silent connections held 7 s (thorough: 7, 35, 65 s) before the final handshake.",
+                text="Every ordered selection (with repetition) of 0..2 (quick: 57) / 0..4 (thorough: 2801) behaviours from {connect+close, garbage, plain HTTP, TLS without ALPN, TLS with foreign ALPN, ClientHello then silence, 50 stalled connections} on TCP, depth <= 1 on the unix socket, each followed by a valid acme-tls/1 handshake judged with C16's certificate oracle; the process must never exit or be signalled. Also a ninth behaviour (20 connections aborted with a RST) and slow peers: silent connections held 7 s (thorough: 7, 35, 65 s) before the final handshake. Also 50 stalled connections under a descriptor limit of 24.",
                 note="Release profile (panic=abort) as shipped by the Makefile. Each behaviour gets 30 ms before the next.", ref="4/C17"),
     "C18": dict(engine="E4", level="exploration", technique="exhaustive grid of root-certificate sources x system store x server chain with the mock CA behind TLS",
                 text="All 8 subsets of {--root-cert, endpoint root_certificates, global root_certificates} carrying the right root, the others an unrelated root or nothing, x SSL_CERT_FILE {empty, unrelated, right} x server chain {trusted, unknown root, other host name, expired}, plus missing / non-PEM root files per source: trusted => the issuance proceeds; otherwise the attempt fails and the server's log shows no HTTP request and no JWS.",
                 note="A bare TLS handshake attempt is allowed. Unreadable files cannot be produced as root.", ref="4/C18"),
     "C19": dict(engine="E4", level="exploration", technique="bounded-exhaustive field-by-field mutation of a full configuration + hazard catalogue, each case in a crash-isolated worker; exhaustive period-string sweep against a reference parser",
-                text="~1000 field mutants (delete, duplicate, unknown key, 13 replacement values incl. wrong types and boundary numbers, section drops) and ~120 hazards (group cycles, include cycles, zero/huge rate limits, overflowing periods at every level, identifier/template hazards) loaded and run until the first attempt ends; a crash, panic, or hang of the worker is the verdict. All 111 111 strings of length <= 5 over 10 symbols + 40 long numerals compared with a reference period parser. Thorough repeats the hazards on the release binary (panic=abort).",
+                text="~1000 field mutants (delete, duplicate, unknown key, 13 replacement values incl. wrong types and boundary numbers, section drops) and ~120 hazards (group cycles, include cycles, zero/huge rate limits, overflowing periods at every level, identifier/template hazards) loaded and run until the first attempt ends; a crash, panic, or hang of the worker is the verdict. All 111 111 strings of length <= 5 over 10 symbols + 40 long numerals compared with a reference period parser. Thorough repeats the hazards on the release binary (panic=abort). Four configurations also go through the daemon's real main() confined to one and to two CPUs.",
                 note="A limit of n requests per practically endless period is honoured by waiting and is not counted as a hang.", ref="4/C19"),
     "C07": dict(engine="E1", level="model_checking", technique="stateless exhaustive exploration of CA faults and hook exit codes over consecutive attempts; real run() loop with several certificates under tokio's paused clock",
                 text="Every single fault (CA alphabet + hook exits 1/2/126/SIGKILL) at every choice point of three consecutive attempts; thorough: every pair over the reduced alphabet. Oracles: no panic, no hang, post-operation hooks exactly once with a truthful verdict, >= 1 s (virtual) between a failed attempt and the next. Variants: no pair / existing pair, kp_reuse off / on (incl. kp_reuse with no key on disk). Non-interference: 1..6 certificates sharing account and endpoint with any number failing permanently.",
                 note="Time is tokio's virtual clock (the guard zeroes two thread::sleep constants, counts untouched). Multi-certificate runs do not control task order.", ref="4/C07"),
     "C08": dict(engine="E1", level="model_checking", technique="exhaustive run-length scripts of error answers at every POST position, judged on the CA's transmission log",
-                text="Every POST position x 26 error types x run lengths of consecutive errors (quick {1,2,9,10,11}, thorough 1..12), 5 status codes, non-problem error bodies, recoverable errors without a Replay-Nonce header, conforming bodies under status 300/304/600, polled objects that become valid at poll 1..41. Oracle per logical request: retried iff recoverable, <=10 transmissions, newest nonce, same content, <=20 polls, never a false success.",
+                text="Every POST position x 26 error types x run lengths of consecutive errors (quick {1,2,9,10,11}, thorough 1..12), 5 status codes, non-problem error bodies, recoverable errors without a Replay-Nonce header, conforming bodies under status 300/304/600, polled objects that become valid at poll 1..41. Oracle per logical request: retried iff recoverable, <=10 transmissions, newest nonce, same content, <=20 polls, never a false success. Also accountDoesNotExist on every newOrder while the account file cannot be stored (must stay bounded).",
                 note="Trusted: the CA log. accountDoesNotExist on newOrder/update/keyChange is a legitimate flow judged by C11.", ref="4/C08"),
 }
 
 NOT_YET = {}
 CHECKS_C20 = dict(engine="E5", level="model_checking", technique="exhaustive enumeration of shipped hook group x git x identifier depth x issuance count histories with real tools, release tacd and a really validating CA",
-                  text="The working tree's default_hooks.toml with real mkdir/echo/chmod/rm/pkill/git/tacd: {http-01-echo, tls-alpn-01-tacd-tcp, tls-alpn-01-tacd-unix} x {alone, +git} x identifiers of 1..3 labels x 1..2 (quick) / 1..3 (thorough) consecutive issuances, variables set or defaulted, set in [global], on the certificate or on the identifier (decoy values at the wider levels and in the daemon environment), TACD_HOST as IPv4, [IPv6], host name and wildcard address, certificates with one to three identifiers; the CA reads the http-01 file at the documented path and performs the acme-tls/1 handshake on the documented address or socket; afterwards no proof file, tacd process, pid file or socket may remain and git log must contain every stored file.",
+                  text="The working tree's default_hooks.toml with real mkdir/echo/chmod/rm/pkill/git/tacd: {http-01-echo, tls-alpn-01-tacd-tcp, tls-alpn-01-tacd-unix} x {alone, +git} x identifiers of 1..3 labels x 1..2 (quick) / 1..3 (thorough) consecutive issuances, variables set or defaulted, set in [global], on the certificate or on the identifier (decoy values at the wider levels and in the daemon environment), TACD_HOST as IPv4, [IPv6], host name and wildcard address, certificates with one to three identifiers; the CA reads the http-01 file at the documented path and performs the acme-tls/1 handshake on the documented address or socket; afterwards no proof file, tacd process, pid file or socket may remain and git log must contain every stored file. Directory names with upper-case letters, a space and a non-ASCII letter are part of the grid.",
                   note="HTTP_ROOT / TACD_PID_ROOT / TACD_SOCK_ROOT are always scratch paths; identifiers resolve to 127.0.0.1.", ref="4/C20")
 
 
